@@ -78,7 +78,7 @@ Definition decode_unit (l : list N) : option (nat * list (N * (N * N))) :=
 
 Definition PA : N := 1.
 Definition PB : N := 2.
-Definition L0 : V.Mgr.Model.limits := V.Mgr.Model.mkLimits None None.
+Definition L0 : V.Mgr.Model.limits := V.Mgr.Model.mkLimits None None [V.Mgr.Model.TCP].
 
 Definition obs := (nat * N)%type.
 
@@ -102,7 +102,7 @@ Definition obs_of_out (n : nat) (al : list bool) (o : nout) : list obs :=
   | OMgr (V.Mgr.Model.EvEstablished _ _) => [(O, 1)]
   | OMgr (V.Mgr.Model.EvClosed _ _) => [(O, 2)]
   | OMgr (V.Mgr.Model.EvDialFailure _ _) => [(O, 6)]
-  | OMgr (V.Mgr.Model.EvOpenFailure _) => [(O, 6)]
+  | OMgr (V.Mgr.Model.EvOpenFailure _ _) => [(O, 6)]
   | OMgr (V.Mgr.Model.ProtoDialFailure _) => map (fun i => (S i, 6)) (alive_users 0 (nuser n) al)
   | OMgr _ => []
   | ONote _ x => flat_map (fun p => if (fst p <? nuser n)%nat then [(S (fst p), snd p)] else []) (pe_of_note x)
@@ -168,23 +168,23 @@ Definition on (x : N) (o : list obs) : ev2 := if x =? 0 then (o, []) else ([], o
 Definition find_ret (os : list nout) : N :=
   fold_right (fun o acc => match o with OMgr (V.Mgr.Model.Ret c) => c | _ => acc end) 99 os.
 Definition find_dial (os : list nout) : option V.Mgr.Model.conn :=
-  fold_right (fun o acc => match o with OMgr (V.Mgr.Model.CallDial c) => Some c | _ => acc end) None os.
+  fold_right (fun o acc => match o with OMgr (V.Mgr.Model.CallDial c _) => Some c | _ => acc end) None os.
 Definition has_accept (c : V.Mgr.Model.conn) (os : list nout) : bool :=
-  existsb (fun o => match o with OMgr (V.Mgr.Model.CallAccept d) => d =? c | _ => false end) os.
+  existsb (fun o => match o with OMgr (V.Mgr.Model.CallAccept d _) => d =? c | _ => false end) os.
 Definition dial_code (ret : N) : N :=
   if ret =? V.Mgr.Model.RET_OK then 0 else if ret =? V.Mgr.Model.RET_CONNECTED then 3 else 9.
 
 (* a connection reaches the manager of node w (peer `p`, id `c`) and is accepted *)
 Definition establish (n : nat) (w : wnode) (p : V.Mgr.Model.peer) (c : V.Mgr.Model.conn) (listener : bool)
   : wnode * list obs :=
-  let '(w1, (os, o1)) := wstep n w (NMgr (V.Mgr.Model.TrEstablished p c listener false)) in
+  let '(w1, (os, o1)) := wstep n w (NMgr (V.Mgr.Model.TrEstablished p c V.Mgr.Model.TCP listener false)) in
   if has_accept c os then
     let '(w2, o2) := wsteps n w1 [NAccept c] in (w2, o1 ++ o2)
   else (w1, o1).
 
 Definition do_connect (n : nat) (w : world) : world * (N * ev2) :=
   if negb (w_up (wa w)) then (w, (2, ([], []))) else
-  let '(a1, (os, oa1)) := wstep n (wa w) (NMgr (V.Mgr.Model.CmdDialAddr PB false)) in
+  let '(a1, (os, oa1)) := wstep n (wa w) (NMgr (V.Mgr.Model.CmdDialAddr PB V.Mgr.Model.TCP false)) in
   let rc := dial_code (find_ret os) in
   match find_dial os with
   | None => (mkWorld a1 (wb w), (rc, (oa1, [])))
@@ -192,12 +192,12 @@ Definition do_connect (n : nat) (w : world) : world * (N * ev2) :=
       if w_up (wb w) then
         let '(a2, oa2) := establish n a1 PB c false in
         let cb := V.Mgr.Model.next_conn (nd_mgr (w_nd (wb w))) in
-        let '(b1, ob1) := wsteps n (wb w) [NMgr V.Mgr.Model.AllocConn; NMgr (V.Mgr.Model.TrPendingInbound cb)] in
+        let '(b1, ob1) := wsteps n (wb w) [NMgr V.Mgr.Model.AllocConn; NMgr (V.Mgr.Model.TrPendingInbound cb V.Mgr.Model.TCP)] in
         let '(b2, ob2) := establish n b1 PA cb true in
         let '(w3, o3) := after n (mkWorld a2 b2) in
         (w3, (rc, app2 (oa1 ++ oa2, ob1 ++ ob2) o3))
       else
-        let '(a2, oa2) := wsteps n a1 [NMgr (V.Mgr.Model.TrDialFailure c PB)] in
+        let '(a2, oa2) := wsteps n a1 [NMgr (V.Mgr.Model.TrDialFailure c V.Mgr.Model.TCP PB)] in
         (mkWorld a2 (wb w), (rc, (oa1 ++ oa2, [])))
   end.
 
@@ -314,12 +314,12 @@ Fixpoint erun (n : nat) (w : world) (steps : list (N * (N * (N * N)))) : world *
 
 Definition final_dial (n : nat) (w : wnode) (p : V.Mgr.Model.peer) : N :=
   if w_up w then
-    let '(_, (os, _)) := wstep n w (NMgr (V.Mgr.Model.CmdDialPeer p false)) in dial_code (find_ret os)
+    let '(_, (os, _)) := wstep n w (NMgr (V.Mgr.Model.CmdDialPeer p [V.Mgr.Model.TCP] [])) in dial_code (find_ret os)
   else 7.
 
 Definition wnode_init (n : nat) (other : V.Mgr.Model.peer) : wnode :=
   let nd := node_init (n + 3) in
-  let '(m1, _) := V.Mgr.Model.step L0 (nd_mgr nd) (V.Mgr.Model.CmdAddAddr other) in
+  let '(m1, _) := V.Mgr.Model.step L0 (nd_mgr nd) (V.Mgr.Model.CmdAddAddr other V.Mgr.Model.TCP) in
   mkW (mkNode m1 (nd_alive nd) []) (repeat false (n + 1)) true.
 
 Definition world_init (n : nat) : world := mkWorld (wnode_init n PB) (wnode_init n PA).
